@@ -353,7 +353,7 @@ def acOptions : AnyCodec where
 def showTraceInfo (t : TraceInfo) : String :=
   s!"({t.main},{t.aux},{t.rands},{t.length},{xhex t.metadata})"
 
-def pTraceInfo : Parser TraceInfo := do
+def pTraceInfoFull : Parser TraceInfo := do
   pChar '('
   let m ← pNumBits 64
   pChar ','
@@ -367,6 +367,30 @@ def pTraceInfo : Parser TraceInfo := do
   pChar ')'
   let t : TraceInfo := ⟨m, a, r, l, md⟩
   if t.wf then pure t else pReject
+
+/-- `n(width,length)` = `TraceInfo::new`, `m(width,length,xmeta)` = `TraceInfo::with_meta` (both assert a
+    non-zero width and call `new_multi_segment`) -/
+def pTraceInfo : Parser TraceInfo := fun cs =>
+  match cs with
+  | 'n' :: r => (do
+    pChar '('
+    let w ← pNumBits 64
+    pChar ','
+    let l ← pNumBits 64
+    pChar ')'
+    let t : TraceInfo := ⟨w, 0, 0, l, []⟩
+    if w > 0 && t.wf then pure t else pReject) r
+  | 'm' :: r => (do
+    pChar '('
+    let w ← pNumBits 64
+    pChar ','
+    let l ← pNumBits 64
+    pChar ','
+    let md ← pXBytes
+    pChar ')'
+    let t : TraceInfo := ⟨w, 0, 0, l, md⟩
+    if w > 0 && t.wf then pure t else pReject) r
+  | _ => pTraceInfoFull cs
 
 def acTraceInfo : AnyCodec where
   α := TraceInfo
@@ -419,8 +443,11 @@ def pCommitments : Parser Bytes := fun cs =>
       let c ← D.parse
       pChar ','
       let f ← pList D.parse
+      let c0 ← pPeek
+      let added ← (if c0 = some ',' then do pChar ','; pList D.parse else pure [])
       pChar ')'
-      pure (commitmentsNew D.c t c f)) cs
+      -- `Commitments::add` appends the serialized digest
+      pure (commitmentsNew D.c t c f ++ encMany D.c added)) cs
 
 def acCommitments : AnyCodec where
   α := Bytes
@@ -591,6 +618,7 @@ def atom : String → Option AnyCodec
   | "bool" => some acBool
   | "unit" => some acUnit
   | "str" => some acStr
+  | "strref" => some acStr
   | "bytes" => some acBytes
   | "f64" => some (acElem F64.impl)
   | "f62" => some (acElem F62.impl)
@@ -630,6 +658,7 @@ def parseTy : Nat → List Char → Option (AnyCodec × List Char)
           match name, args with
           | "opt", [A] => some (acOpt A)
           | "vec", [A] => some (acVec A)
+          | "slice", [A] => some (acVec A)
           | "set", [A] => some (acSet A)
           | "map", [K, V] => some (acMap K V)
           | "tup", args => (acTup args).map acParen
@@ -821,6 +850,36 @@ def opOparse (text : String) : String :=
   | .reject => "reject"
   | .skip => "-"
 
+/-- `seq <ty1;ty2;...> <hex>`: the types one after the other on the same reader -/
+def opSeq (types : String) (h : String) : String :=
+  match unhex h with
+  | none => "bad-op"
+  | some bs =>
+    let rec go : List String → Bytes → List String → String
+      | [], rest, acc =>
+        "|".intercalate (acc.reverse ++ [s!"more={if rest.isEmpty then "false" else "true"} rest={rest.length}"])
+      | t :: ts, rest, acc =>
+        match typeOf t with
+        | none => "|".intercalate (acc.reverse ++ ["bad-op"])
+        | some A =>
+          match A.c.dec rest with
+          | .ok (x, rest') => go ts rest' (s!"ok {A.shw x}" :: acc)
+          | .err => "|".intercalate (acc.reverse ++ ["err"])
+          | .eof => "|".intercalate (acc.reverse ++ ["eof"])
+          | .panic => "|".intercalate (acc.reverse ++ ["panic"])
+    go (types.splitOn ";") bs []
+
+/-- `rstr <n> <hex>`: `read_string(n)` = `read_vec(n)` then `String::from_utf8` -/
+def opRstr (n : Nat) (h : String) : String :=
+  match unhex h with
+  | none => "bad-op"
+  | some bs =>
+    match readSlice n bs with
+    | .ok (s, rest) => if validUtf8 s then s!"ok {xhex s} {rest.length}" else "err"
+    | .err => "err"
+    | .eof => "eof"
+    | .panic => "panic"
+
 def handle : List String → String
   | ["enc", ty, text] =>
     match typeOf ty with
@@ -835,6 +894,11 @@ def handle : List String → String
     | some v => opVint v
     | none => "bad-op"
   | ["qparse", text] => opQparse text
+  | ["seq", types, h] => opSeq types h
+  | ["rstr", n, h] =>
+    match n.toNat? with
+    | some n => opRstr n h
+    | none => "bad-op"
   | ["cparse", text] => opCparse text
   | ["oparse", text] => opOparse text
   | _ => "-"
